@@ -64,8 +64,25 @@ class Check(Property):
             gname = f"NG{i}"
             us = rng.sample(P.mult, 3)
             used = rng.sample([g["name"] for g in P.proj.groups], rng.randint(0, 2))
+            inner = None
+            if rng.random() < 0.5:
+                # a new group used by the new group: edits of the inner one must show through the outer one
+                inner = gname + "_in"
+                ius = rng.sample(P.mult, 2)
+                steps.append({"f": "add_group", "name": inner, "units": ius, "using": []})
+                ops.append({"op": "gs", "f": "add_group", "name": inner, "units": ius, "using": []})
+                used = used + [inner]
             steps.append({"f": "add_group", "name": gname, "units": us, "using": used})
             ops.append({"op": "gs", "f": "add_group", "name": gname, "units": us, "using": used})
+            if inner:
+                for _ in range(rng.randint(1, 3)):
+                    steps.append({"f": "members", "g": gname})
+                    ops.append({"op": "gs", "f": "members", "g": gname})
+                    nu = rng.sample(P.mult, 2)
+                    steps.append({"f": "add_units", "g": inner, "units": nu})
+                    ops.append({"op": "gs", "f": "add_units", "g": inner, "units": nu})
+                    steps.append({"f": "members", "g": gname})
+                    ops.append({"op": "gs", "f": "members", "g": gname})
             for _ in range(rng.randint(2, 6)):
                 r = rng.random()
                 if r < 0.3:
@@ -267,7 +284,22 @@ class Check(Property):
         r = regs.fresh("fraction")
         cur = r.default_system
         own = {}
-        for s in c["steps"]:
+        pending = []
+
+        def closure(reg, gname, seen=None):
+            seen = seen or set()
+            if gname in seen:
+                return set()
+            seen.add(gname)
+            g = reg._groups[gname]
+            out = set(g._unit_names)
+            for x in g._used_groups:
+                out |= closure(reg, x, seen)
+            return out
+        steps = list(c["steps"])
+        for s0 in [x for x in c["steps"] if x["f"] == "add_units"]:
+            steps.append({"f": "sweep", "g": s0["g"], "units": s0["units"]})
+        for s in steps:
             try:
                 if s["f"] == "add_group":
                     g = r.Group(s["name"])
@@ -278,6 +310,15 @@ class Check(Property):
                 elif s["f"] == "add_units":
                     r.get_group(s["g"], False).add_units(*s["units"])
                     own.setdefault(s["g"], set()).update(s["units"])
+                    pending.append(s)
+                elif s["f"] == "members":
+                    grp = r.get_group(s["g"], False)
+                    got = set(grp.members)
+                    want = closure(r, s["g"])
+                    if got != want:
+                        v.append(f"C14 after the edits so far group {s['g']}.members lacks {sorted(want - got)[:4]} / has extra "
+                                 f"{sorted(got - want)[:4]} compared with the closure of its units and used groups")
+                elif s["f"] == "sweep":
                     for name, grp in r._groups.items():
                         if name == s["g"] or grp.is_used_group(s["g"]):
                             if not set(s["units"]) <= set(grp.members):
@@ -295,7 +336,8 @@ class Check(Property):
                     want = r.get_base_units(uc, system=cur) if cur else r.get_root_units(uc)
                     fresh = regs.ureg("fraction")
                     want2 = fresh.get_base_units(regs.pint_uc(fresh, s["u"], canonical=True), system=cur) if cur else fresh.get_root_units(regs.pint_uc(fresh, s["u"], canonical=True))
-                    if (got[0], str(got[1])) != (want2[0], str(want2[1])):
+                    # systems with irrational base units (atomic, Planck) go through float powers: tolerance
+                    if str(got[1]) != str(want2[1]) or abs(Fraction(got[0]) - Fraction(want2[0])) > abs(Fraction(want2[0])) * Fraction(1, 10 ** 12):
                         v.append(f"C14 base units of {s['u']} with default system {cur}: {got}, a fresh registry with that system gives {want2}")
             except Exception as exc:  # noqa: BLE001
                 v.append(f"C14 edit sequence step {s} raised {type(exc).__name__}: {exc}")
